@@ -867,7 +867,7 @@ def _analyse_lookup1(p, obs):
     idx_c = find(obs, lambda x: bool(app(x, "idx")) and same(app(x, "idx")[1], L.C) and not same(x, L.P), at_p)
     for x in idx_c:
         b = app(x, "idx")[0]
-        if L.sorted_copy and same(b, L.H):
+        if (L.sorted_copy and same(b, L.H)) or same(b, F.fn("idx", L.base, L.I)):
             continue                # the sorted keys at the clamped index: the keys found
         if same(b, L.base):
             L.res["sorter-map"] = ("fail", {"use": _show(x), "consequence": "an index into the sorted order is applied to the unsorted keys"})
@@ -879,7 +879,7 @@ def _analyse_lookup1(p, obs):
         L.res["sorter-map"] = ("error", "the insertion index is also used outside `sorter[index]`")
         return L
     # exact re-check: the keys found at P are compared with the requested keys
-    found = [F.fn("idx", L.base, L.P)] + ([F.fn("idx", L.H, L.C)] if L.sorted_copy else [])
+    found = [F.fn("idx", L.base, L.P), F.fn("idx", F.fn("idx", L.base, L.I), L.C)] + ([F.fn("idx", L.H, L.C)] if L.sorted_copy else [])
     L.found = found
 
     def is_ne(x):
